@@ -107,6 +107,36 @@ func mapToMap(m z.ZogIssueMap) map[string][]Iss {
 // Run executes the case on the real zog.
 func Run(c *Case) (res *Result) {
 	rec := NewRecorder()
+	schema := Build(c.Schema, rec)
+	var data any
+	if c.Mode == "p" {
+		data = c.Input.Go()
+	}
+	return runOn(schema, c, rec, data)
+}
+
+// RunTwice executes the case twice on ONE schema object (fresh destination each time) and reports
+// whether the input data was modified by the first execution.
+func RunTwice(c *Case) (first, second *Result, inputChanged string) {
+	rec := NewRecorder()
+	schema := Build(c.Schema, rec)
+	var data any
+	if c.Mode == "p" {
+		data = c.Input.Go()
+	}
+	before := fmt.Sprintf("%#v", data)
+	first = runOn(schema, c, rec, data)
+	after := fmt.Sprintf("%#v", data)
+	if c.Mode == "p" && before != after && c.Input.K != "x" {
+		inputChanged = "before " + before + " after " + after
+	}
+	rec2 := NewRecorder()
+	*rec = *rec2
+	second = runOn(schema, c, rec, data)
+	return
+}
+
+func runOn(schema z.ZogSchema, c *Case, rec *Recorder, data any) (res *Result) {
 	res = &Result{}
 	p.VerifFieldHook = func(path, key string) {
 		if _, ok := rec.Order[path]; !ok {
@@ -115,7 +145,6 @@ func Run(c *Case) (res *Result) {
 		rec.Order[path] = append(rec.Order[path], key)
 	}
 	defer func() { p.VerifFieldHook = nil }()
-	schema := Build(c.Schema, rec)
 	dest := reflect.New(c.Schema.GoType())
 	SetD(c.Schema, dest.Elem(), c.Dest)
 	defer func() {
@@ -123,10 +152,6 @@ func Run(c *Case) (res *Result) {
 			res = &Result{Panic: fmt.Sprint(r), Events: rec.Events, Order: rec.Order}
 		}
 	}()
-	var data any
-	if c.Mode == "p" {
-		data = c.Input.Go()
-	}
 	var im map[string][]Iss
 	switch s := schema.(type) {
 	case z.ComplexZogSchema:
